@@ -92,6 +92,16 @@ class EpsilonNFA(Regexable, FiniteAutomaton):
         for state in self._start_state:
             if state is not None and state not in self._states:
                 self._states.add(state)
+        self._register_transition_function()
+
+    def _register_transition_function(self):
+        """ The states and the symbols used by the transition function \
+        given to the constructor belong to the automaton """
+        for s_from, symb_by, s_to in self._transition_function:
+            self._states.add(s_from)
+            self._states.add(s_to)
+            if symb_by != Epsilon():
+                self._input_symbols.add(symb_by)
 
     def _get_next_states_iterable(self,
                                   current_states: Iterable[State],
